@@ -3,6 +3,7 @@
 // contains the axes, the diagonals and both sides of the branch cuts (+-0 imaginary parts).
 #include "../common/vcheck.hpp"
 #include <complex>
+#include <utility>
 using namespace vh;
 typedef long double ld;
 typedef std::complex<ld> CL;
@@ -200,6 +201,38 @@ static void run_type(uint64_t seed)
             cmpc("scalar_real_sub", sr - va, [srl](CL x, CL, CL, ld) { return srl - x; }, 8, 0, none);
             cmpc("div_scalar_real", va / sr, [srl](CL x, CL, CL, ld) { return x / srl; }, 8, 0, none);
         }
+        {
+            // other API forms: compound assignment (complex and real right-hand sides), named functions, ++ / --
+            B t = va; t += vb;
+            cmpc("add_assign", t, [](CL x, CL y, CL, ld) { return x + y; }, 8, 0, none);
+            t = va; t -= vb;
+            cmpc("sub_assign", t, [](CL x, CL y, CL, ld) { return x - y; }, 8, 0, none);
+            t = va; t *= vb;
+            cmpc("mul_assign", t, [](CL x, CL y, CL, ld) { return x * y; }, 8, 0, none);
+            t = va; t /= vb;
+            cmpc("div_assign", t, [](CL x, CL y, CL, ld) { return y == CL(0) ? CL(NAN, NAN) : x / y; }, 8, 0, none);
+            t = va; t += vr;
+            cmpc("add_assign_real_batch", t, [](CL x, CL, CL, ld r) { return x + r; }, 8, 0, none);
+            t = va; t -= vr;
+            cmpc("sub_assign_real_batch", t, [](CL x, CL, CL, ld r) { return x - r; }, 8, 0, none);
+            t = va; t *= vr;
+            cmpc("mul_assign_real_batch", t, [](CL x, CL, CL, ld r) { return x * r; }, 8, 0, none);
+            t = va; t /= vr;
+            cmpc("div_assign_real_batch", t, [](CL x, CL, CL, ld r) { return r == 0 ? CL(NAN, NAN) : x / r; }, 8, 0, none);
+            t = va; ++t;
+            cmpc("preinc", t, [](CL x, CL, CL, ld) { return x + CL(1); }, 8, 0, none);
+            t = va; --t;
+            cmpc("predec", t, [](CL x, CL, CL, ld) { return x - CL(1); }, 8, 0, none);
+            t = va;
+            B old = t++;
+            cmpc("postinc_result", old, [](CL x, CL, CL, ld) { return x; }, 0, 0, none);
+            cmpc("postinc_effect", t, [](CL x, CL, CL, ld) { return x + CL(1); }, 8, 0, none);
+            cmpc("xs_add", xs::add(va, vb), [](CL x, CL y, CL, ld) { return x + y; }, 8, 0, none);
+            cmpc("xs_sub", xs::sub(va, vb), [](CL x, CL y, CL, ld) { return x - y; }, 8, 0, none);
+            cmpc("xs_mul", xs::mul(va, vb), [](CL x, CL y, CL, ld) { return x * y; }, 8, 0, none);
+            cmpc("xs_div", xs::div(va, vb), [](CL x, CL y, CL, ld) { return y == CL(0) ? CL(NAN, NAN) : x / y; }, 8, 0, none);
+            cmpc("xs_neg", xs::neg(va), [](CL x, CL, CL, ld) { return -x; }, 0, 0, none);
+        }
         cmpc("fma", xs::fma(va, vb, vc), [](CL x, CL y, CL z, ld) { return x * y + z; }, 8, 2, none);
         cmpc("fms", xs::fms(va, vb, vc), [](CL x, CL y, CL z, ld) { return x * y - z; }, 8, 2, none);
         cmpc("fnma", xs::fnma(va, vb, vc), [](CL x, CL y, CL z, ld) { return -(x * y) + z; }, 8, 2, none);
@@ -333,8 +366,172 @@ static void run_type(uint64_t seed)
     }
 }
 
+// ---------------------------------------------------------------- data movement and select on complex batches
+// (reported under C05 / C03: a complex lane is one element; real and imaginary part must travel together)
+template <class T>
+struct CplxMove
+{
+    using C = std::complex<T>;
+    using B = xs::batch<C, ARCH>;
+    using RB = xs::batch<T, ARCH>;
+    using IT = xs::as_unsigned_integer_t<T>;
+    using IB = xs::batch<IT, ARCH>;
+    static constexpr size_t N = B::size;
+    alignas(64) T re[N], im[N], ore[N], oim[N];
+    Rng rng;
+    explicit CplxMove(uint64_t seed)
+        : rng(mix(seed, 505 + sizeof(T)))
+    {
+    }
+    void fresh()
+    {
+        // pairwise distinct, non-NaN bit patterns: a wrong source lane (or a real part paired with the wrong imaginary part) cannot collide
+        for (size_t i = 0; i < N; ++i)
+        {
+            re[i] = (T)(1000 + 16 * (long)i) + (T)(rng.next() % 1024) / (T)1024;
+            im[i] = -(T)(5000 + 16 * (long)i) - (T)(rng.next() % 1024) / (T)1024;
+        }
+    }
+    B in() const { return B(RB::load_aligned(re), RB::load_aligned(im)); }
+    // expect out[i] == x[map[i]]
+    void expect(OpStat& st, const B& r, const size_t* map, const std::string& what)
+    {
+        r.real().store_aligned(ore);
+        r.imag().store_aligned(oim);
+        for (size_t i = 0; i < N; ++i)
+        {
+            st.evals++;
+            st.cell((unsigned)((strhash(what.c_str()) & 0xffff) << 6 | i));
+            if (!same_bits(ore[i], re[map[i]]) || !same_bits(oim[i], im[map[i]]))
+            {
+                viol(st, "unclassified", "{\"what\":" + jstr(what) + ",\"lane\":" + std::to_string(i) + ",\"expected_source_lane\":" + std::to_string(map[i]) + ",\"re_in\":" + hexarr(re, N) + ",\"im_in\":" + hexarr(im, N) + ",\"re_out\":" + hexarr(ore, N) + ",\"im_out\":" + hexarr(oim, N) + "}");
+                break;
+            }
+        }
+    }
+    template <size_t K>
+    void rot_one(OpStat& sl, OpStat& sr)
+    {
+        size_t map[N];
+        fresh();
+        if (sl.on)
+        {
+            for (size_t i = 0; i < N; ++i)
+                map[i] = (i + K) % N;
+            mark_case("complex_rotate_left", tname<T>(), re, sizeof re);
+            expect(sl, xs::rotate_left<K>(in()), map, "rotate_left<" + std::to_string(K) + ">");
+        }
+        if (sr.on)
+        {
+            for (size_t i = 0; i < N; ++i)
+                map[i] = (i + N - K % N) % N;
+            mark_case("complex_rotate_right", tname<T>(), re, sizeof re);
+            expect(sr, xs::rotate_right<K>(in()), map, "rotate_right<" + std::to_string(K) + ">");
+        }
+    }
+    template <size_t... Ks>
+    void rot_all(OpStat& sl, OpStat& sr, std::index_sequence<Ks...>)
+    {
+        int dummy[] = { (rot_one<Ks>(sl, sr), 0)... };
+        (void)dummy;
+    }
+    // constant masks from a generator family F (0 reverse, 1 rotate by one, 2 broadcast last, 3 swap pairs, 4.. pseudo-random)
+    template <int F>
+    struct Gen
+    {
+        static constexpr IT get(size_t i, size_t n)
+        {
+            return F == 0 ? (IT)(n - 1 - i) : F == 1 ? (IT)((i + 1) % n) : F == 2 ? (IT)(n - 1) : F == 3 ? (IT)(i ^ 1)
+                                                                                                          : (IT)(((i + 1) * (2654435761u + 40503u * (unsigned)F) >> 7) % n);
+        }
+    };
+    template <int F>
+    void swz_const(OpStat& st)
+    {
+        size_t map[N];
+        for (size_t i = 0; i < N; ++i)
+            map[i] = (size_t)Gen<F>::get(i, N);
+        fresh();
+        mark_case("complex_swizzle_constant", tname<T>(), re, sizeof re);
+        expect(st, xs::swizzle(in(), xs::make_batch_constant<IT, Gen<F>, ARCH>()), map, "constant mask family " + std::to_string(F));
+    }
+    void run()
+    {
+        const std::string ty = std::string("c") + tname<T>();
+        OpStat& sl = reg("C05", "complex_rotate_left", ty.c_str());
+        OpStat& sr = reg("C05", "complex_rotate_right", ty.c_str());
+        OpStat& sc = reg("C05", "complex_swizzle_constant", ty.c_str());
+        OpStat& sd = reg("C05", "complex_swizzle_runtime", ty.c_str());
+        OpStat& ss = reg("C03", "complex_select", ty.c_str());
+        long reps = budget(20, 400);
+        for (long rep = 0; rep < reps; ++rep)
+        {
+            if (sl.on || sr.on)
+                rot_all(sl, sr, std::make_index_sequence<N>());
+            if (sc.on)
+            {
+                swz_const<0>(sc);
+                swz_const<1>(sc);
+                swz_const<2>(sc);
+                swz_const<3>(sc);
+                swz_const<4>(sc);
+                swz_const<5>(sc);
+                swz_const<6>(sc);
+                swz_const<7>(sc);
+            }
+            if (sd.on)
+                for (int k = 0; k < 16; ++k)
+                {
+                    alignas(64) IT idx[N];
+                    size_t map[N];
+                    for (size_t i = 0; i < N; ++i)
+                    {
+                        map[i] = k == 0 ? N - 1 - i : k == 1 ? 0 : k == 2 ? N - 1 : (size_t)(rng.next() % N);
+                        idx[i] = (IT)map[i];
+                    }
+                    fresh();
+                    mark_case("complex_swizzle_runtime", tname<T>(), idx, sizeof idx);
+                    expect(sd, xs::swizzle(in(), IB::load_aligned(idx)), map, "run-time index batch");
+                }
+            if (ss.on)
+                for (int k = 0; k < 16; ++k)
+                {
+                    bool c[N];
+                    for (size_t i = 0; i < N; ++i)
+                        c[i] = k == 0 ? false : k == 1 ? true : k < 2 + (int)N ? (int)i == k - 2 : (rng.next() & 1);
+                    fresh();
+                    alignas(64) T re2[N], im2[N];
+                    for (size_t i = 0; i < N; ++i)
+                    {
+                        re2[i] = re[i] + (T)100000;
+                        im2[i] = im[i] - (T)100000;
+                    }
+                    B a = in(), b(RB::load_aligned(re2), RB::load_aligned(im2));
+                    mark_case("complex_select", tname<T>(), c, N);
+                    B r = xs::select(xs::batch_bool<T, ARCH>::load_unaligned(c), a, b);
+                    r.real().store_aligned(ore);
+                    r.imag().store_aligned(oim);
+                    for (size_t i = 0; i < N; ++i)
+                    {
+                        ss.evals++;
+                        ss.cell((unsigned)(i << 8 | (c[i] ? 1u : 0u) << 7 | (unsigned)(k < 2 + (int)N ? k : 127)));
+                        if (!same_bits(ore[i], c[i] ? re[i] : re2[i]) || !same_bits(oim[i], c[i] ? im[i] : im2[i]))
+                        {
+                            viol(ss, "unclassified", "{\"lane\":" + std::to_string(i) + ",\"cond\":" + hexarr(c, N) + ",\"re_out\":" + hexarr(ore, N) + ",\"im_out\":" + hexarr(oim, N) + "}");
+                            break;
+                        }
+                    }
+                }
+        }
+    }
+};
+
 void vh::unit_main()
 {
+    CplxMove<float>(ctx().seed).run();
+    CplxMove<double>(ctx().seed).run();
+    if (ctx().prop && (strcmp(ctx().prop, "C05") == 0 || strcmp(ctx().prop, "C03") == 0))
+        return; // only the monitors above report under these properties
     run_type<float>(ctx().seed);
     run_type<double>(ctx().seed);
 }
